@@ -6,6 +6,7 @@ import (
 	"encoding/json"
 	"fmt"
 	"sort"
+	"sync"
 	"testing"
 	"time"
 
@@ -35,6 +36,10 @@ type Case struct {
 	Cuts    [][]int      `json:"cuts,omitempty"`
 	Release [][]int      `json:"release"` // per round: order (indices into the round) in which held requests are released
 	Holds   []sched.Hold `json:"holds,omitempty"`
+	// SlowWrite: each round is sent in two waves; the transport write of the
+	// first reply is held "in progress" (slow reader) until the second wave
+	// has been received and answered by the implementation.
+	SlowWrite bool `json:"slowwrite,omitempty"`
 }
 
 const deadline = 10 * time.Second
@@ -58,7 +63,7 @@ func run(c *Case) error {
 	sv := script.NewServer(script.Config{Msize: 8192, Dotu: c.Dotu, Maxpend: c.Maxpend})
 	ctl := sched.New(c.Holds)
 	defer sched.Install(ctl)()
-	end := sv.Dial("c03")
+	end, lib := sv.Dial2("c03")
 	cl := rawc.New(end)
 	defer cl.Close()
 	defer sv.S.ReleaseAll()
@@ -150,17 +155,62 @@ func run(c *Case) error {
 			stream = append(stream, ref9p.Encode(p.msg, c.Dotu)...)
 			bounds = append(bounds, len(stream))
 		}
-		switch c.Chunks {
-		case "one":
-			_ = end.WriteChunks(stream, nil)
-		case "each":
-			_ = end.WriteChunks(stream, bounds)
-		default:
-			var cuts []int
-			if ri < len(c.Cuts) {
-				cuts = c.Cuts[ri]
+		if c.SlowWrite && len(ps) >= 2 {
+			half := len(ps) / 2
+			hit := make(chan struct{})
+			release := make(chan struct{})
+			var once sync.Once
+			lib.SetWriteHook(func([]byte) {
+				first := false
+				once.Do(func() { first = true })
+				if first {
+					close(hit)
+					<-release
+				}
+			})
+			_ = end.WriteChunks(stream[:bounds[half-1]], nil)
+			// release the held requests of the first wave so that a reply is produced
+			for i := 0; i < half; i++ {
+				sv.S.Release(ps[i].key)
 			}
-			_ = end.WriteChunks(stream, cuts)
+			select {
+			case <-hit:
+				hx.ExtraAdd("writes_held_in_progress", 1)
+			case <-time.After(2 * time.Second):
+			}
+			_ = end.WriteChunks(stream[bounds[half-1]:], nil)
+			for i := half; i < len(ps); i++ {
+				sv.S.Release(ps[i].key)
+			}
+			// wait until the second wave has been answered by the implementation (its replies are packed)
+			for w := 0; w < 200; w++ {
+				n := 0
+				for _, e := range sv.S.Log()[before:] {
+					if e.Kind == "answer" {
+						n++
+					}
+				}
+				if n >= len(ps) {
+					break
+				}
+				time.Sleep(250 * time.Microsecond)
+			}
+			time.Sleep(300 * time.Microsecond)
+			close(release)
+			lib.SetWriteHook(nil)
+		} else {
+			switch c.Chunks {
+			case "one":
+				_ = end.WriteChunks(stream, nil)
+			case "each":
+				_ = end.WriteChunks(stream, bounds)
+			default:
+				var cuts []int
+				if ri < len(c.Cuts) {
+					cuts = c.Cuts[ri]
+				}
+				_ = end.WriteChunks(stream, cuts)
+			}
 		}
 		// release held requests in the drawn order, each once it is inside the implementation
 		var order []int
@@ -457,7 +507,7 @@ func execute(test string, c *Case) error {
 			hx.Label("kind=" + rs.Kind)
 		}
 	}
-	hx.Label(fmt.Sprintf("rounds=%d chunks=%s maxpend=%d holds=%d", len(c.Rounds), c.Chunks, c.Maxpend, len(c.Holds)))
+	hx.Label(fmt.Sprintf("rounds=%d chunks=%s maxpend=%d holds=%d slowwrite=%v", len(c.Rounds), c.Chunks, c.Maxpend, len(c.Holds), c.SlowWrite))
 	switch {
 	case n > 32:
 		hx.Label("requests>32")
@@ -577,7 +627,12 @@ func permutations(n int) [][]int {
 func TestPropHistories(t *testing.T) {
 	hx.Check(t, "histories", hx.N(1200, 8000), func(t *rapid.T) {
 		c := genCase(t)
-		genHolds(t, c)
+		if rapid.IntRange(0, 4).Draw(t, "slowwrite") == 0 {
+			c.SlowWrite = true
+			c.Chunks = "one"
+		} else {
+			genHolds(t, c)
+		}
 		if err := execute("histories", c); err != nil {
 			hx.Failf(t, "histories", c, "%v", err)
 		}
